@@ -3077,6 +3077,17 @@ def _coerce_to__arglikes(
             fst_ = fst.FST(ast, src.split('\n'), None, parse_params=parse_params)  # this is already stripped
 
         else:
+            kind_max = 0
+
+            for a in arglikes:  # not reparsed so need to validate order ourselves, e.g. `_type_params` '**P, *T' is not a valid arglike order
+                kind = 1 if (a_cls := a.__class__) is Starred else 0 if a_cls is not keyword else 3 if a.arg is None else 2
+
+                if kind < kind_max - 1:
+                    raise _coerce_error('_arglikes', codea, ', invalid arglike order')
+
+                if kind > kind_max:
+                    kind_max = kind
+
             code._unmake_fst_tree()
 
             ast = _arglikes(arglikes=arglikes, lineno=1, col_offset=0, end_lineno=len(ls := code._lines),
